@@ -40,4 +40,4 @@ def run(tier):
     progs = gen.c13_scope(tier)
     return run_e2e_property("C13", tier, EXPLANATION, "DESIGN §4 C13",
                             [("e2e-implicit-signals", progs, "untyped values next to explicit signals")],
-                            contract_modules=["contracts.c13", "contracts.c03", "contracts.c14b", "contracts.c14d", "contracts.c01b"], extra=_reserve_box)
+                            contract_modules=["contracts.c13", "contracts.c03", "contracts.c14b", "contracts.c14d", "contracts.c01b", "contracts.c01c"], extra=_reserve_box)
